@@ -680,7 +680,7 @@ func (st *State) floatToInt(a *Term, w int, signed bool) *Term {
 	lo := ts.intern(&Term{op: OConst, sort: SInt, r: new(big.Rat).SetInt(new(big.Int).Neg(lim))})
 	hi := ts.intern(&Term{op: OConst, sort: SInt, r: new(big.Rat).SetInt(lim)})
 	st.assume(ts.And(ts.icmp(OILe, lo, n), ts.icmp(OILt, n, hi)))
-	return ts.intern(&Term{op: OInt2Bv, sort: bvSort(w), args: []*Term{n}, aux: w})
+	return ts.Int2Bv(n, w)
 }
 
 var _ = ssa.NewProgram
